@@ -120,6 +120,21 @@ def reduce_desc(j, keep):
     return d
 
 
+def rename_self(desc, old, new):
+    """a program description is renamed: rewrite the self references inside its type descriptions"""
+    def go(x):
+        if isinstance(x, dict):
+            if x.get("k") == "named" and x.get("pkg", "").endswith("/" + old):
+                x["pkg"] = x["pkg"][: -len(old)] + new
+            for v in x.values():
+                go(v)
+        elif isinstance(x, list):
+            for v in x:
+                go(v)
+    go(desc)
+    return desc
+
+
 def view(j):
     """what goes into a replay file / evidence sample: the case without the bulky parts"""
     v = {k: j[k] for k in ("kind", "prog", "target", "priv", "emb", "obs", "imports", "go_method_set",
